@@ -277,6 +277,9 @@ func (px *pathCtx) decideX(conds []*Term, exhaustive bool) int {
 		panic(pathAbort{"all alternatives infeasible"})
 	}
 	chosen = feas[0]
+	if forkProfOn && len(feas) > 1 {
+		noteFork(px)
+	}
 	for _, alt := range feas[1:] {
 		np := make([]int, pos+1)
 		copy(np, px.decisions)
@@ -834,3 +837,50 @@ func (r *HarnessResult) SortedFuncs() []string {
 }
 
 func bigFromInt64(x int64) *big.Int { return big.NewInt(x) }
+
+// fork-site profile (GOSYMX_FORKS=1): where paths split, to find the location that explodes
+var (
+	forkProfOn = os.Getenv("GOSYMX_FORKS") != ""
+	forkProfMu sync.Mutex
+	forkProf   = map[string]int{}
+)
+
+func noteFork(px *pathCtx) {
+	in := px.w.i.curInstr
+	key := "?"
+	if in != nil {
+		fn := ""
+		if in.Parent() != nil {
+			fn = in.Parent().String()
+		}
+		key = fn + " @ " + px.w.i.prog.Fset.Position(in.Pos()).String()
+	}
+	forkProfMu.Lock()
+	forkProf[key]++
+	forkProfMu.Unlock()
+}
+
+// DumpForkProfile prints the most frequent fork sites.
+func DumpForkProfile() {
+	if !forkProfOn {
+		return
+	}
+	type kv struct {
+		k string
+		n int
+	}
+	var l []kv
+	forkProfMu.Lock()
+	for k, n := range forkProf {
+		l = append(l, kv{k, n})
+	}
+	forkProf = map[string]int{}
+	forkProfMu.Unlock()
+	sort.Slice(l, func(i, j int) bool { return l[i].n > l[j].n })
+	for i, e := range l {
+		if i >= 25 {
+			break
+		}
+		fmt.Fprintf(os.Stderr, "FORKS %8d %s\n", e.n, e.k)
+	}
+}
